@@ -23,9 +23,13 @@ Verdict rules (the property text decides):
   (the request was honoured after all); it fails only if it answers with different numbers.
 The model's normalisation shortcut norm_cont_diag is compared with Overlap.norm_cont (command 106) on every run.
 A sample of one-axis cases (command 105) is re-evaluated inside Coq with vm_compute and must agree with the
-extracted code exactly."""
+extracted code exactly.
+Stream "hp": EvalDeriv.construct_array_contraction with both back-ends, i.e. _eval_deriv_contractions and
+_eval_first_second_order_deriv_contractions (+ _first_derivative / _second_derivative) of gbasis/evals/_deriv.py and
+norm_prim_cart, replayed in 260-bit arithmetic on object arrays (harness/hpnum.py; scipy's eval_hermite, a float-only
+ufunc, is replaced by the three-term recurrence in the same arithmetic) and compared with command 100 at
+1e-18 x sum|terms| (command 104, the model's own exact scale): a difference there is a difference of FORMULA."""
 import itertools
-import math
 import os
 import random
 import subprocess
@@ -45,14 +49,13 @@ RULE = ("all 125 order triples (each order 0..4) x both back-ends enumerated on 
         "Cartesian / spherical / mixed, with and without a random rectangular transform (entries k/4); centres k/16, "
         "exponents log-uniform 0.02..cap(l) with 8-bit mantissas, coefficients k/8; 1-50 points = offsets m/2^j from a "
         "centre, always including a point exactly on a centre, one on an axis through it and one on a coordinate "
-        "plane through it; evaluate_basis cases for every l 0..6 in both coordinate types; unknown back-end names; "
-        "stream far_tight (quick 30, thorough 300 cases): one or two shells (l in 0,0,1,1,2, K 1-2, M 1-2) on ONE centre "
-        "100-150 bohr per axis from the coordinate origin (53-bit coordinates), exponents log-uniform within a factor 4 "
-        "below exp_cap(l) (1e5 for s, a decade less per l; 53-bit), points = the centre, a point on an axis and on a "
-        "coordinate plane through it and general points at offsets (0.2..3)/sqrt(alpha) per axis (53-bit), order "
-        "triples cycling through all 125 (general) / all 27 with every order <= 2 (direct) and evaluate_basis. "
+        "plane through it; evaluate_basis cases for every l 0..6 in both coordinate types; 8 (quick) / 80 (thorough) tight "
+        "shells (exponent within a factor 4 of the cap for l) centred 30-150 bohr from the origin, points within "
+        "2/sqrt(alpha) of the centre; unknown back-end names. "
         "A case is non-trivial when the exact result is not identically zero and (l>0 or K>1 or M>1 or total order>0 "
-        "or more than one shell); distinct by the hash of the exact input")
+        "or more than one shell); distinct by the hash of the exact input; hp stream: 16 (quick) / 250 (thorough) "
+        "single Cartesian shells l<=3 / l<=5, K<=3, M<=2, 3-4 points, order triples up to 4 (general) / 2 (direct), "
+        "replayed at 260 bits against command 100, tolerance 1e-18 x sum|terms| (command 104)")
 ASSUMPTIONS = [
     "floating-point rounding of the NumPy pipeline is not modelled: the accuracy clause is decided on the generated "
     "inputs against the exact value, tolerance 1e-9 x sum|terms| + 2^-1060 x sum|terms without Gaussian| (model-computed)",
@@ -81,7 +84,60 @@ def _tnp(t):
     return None if t is None else np.array([[float(Fraction(c)) for c in row] for row in t])
 
 
-def _eval_case(model, case):
+def eval_hp(model, case):
+    """high-precision replay of EvalDeriv.construct_array_contraction (one Cartesian shell) vs command 100"""
+    import hpnum
+    s = _basis(case)[0]
+    pts = _points(case)
+    orders = [int(o) for o in case["orders"]]
+    bname = case["backend"]
+    tag = "hp %s l=%d total order %d" % (bname, s.l, sum(orders))
+    res = model.call("(100 %s %s %s %d)" % (s.sx(), sx(pts), sx(orders), BACKENDS[bname]))
+    scale = np.array(model.call("(104 %s %s %s 0)" % (s.sx(), sx(pts), sx(orders))), dtype=object).astype(float)
+
+    def replay():
+        from gbasis.evals.eval_deriv import EvalDeriv
+        return EvalDeriv.construct_array_contraction(hpnum.hp_shell(s), hpnum.hp_array(pts), np.array(orders),
+                                                     deriv_type=bname)
+    ok, blk = hpnum.try_replay(replay)
+    if not ok:
+        return {"detail": blk, "nontrivial": True, "tag": tag}
+    d = hpnum.compare_hp(blk, res, scale, floor_rel=0.0)
+    if d is not None:
+        d["tolerance_rule"] = "1e-18 x sum|terms| (model command 104)"
+    return {"detail": d, "tag": tag, "nontrivial": bool(scale.size and scale.max() > hpnum.NONTRIVIAL_SCALE),
+            "stats": {"hp_elements": int(np.asarray(blk).size)}}
+
+
+def gen_hp_cases(tier, seed):
+    if os.environ.get("VERIF_NO_HP"):        # timing comparisons only
+        return []
+    rng = random.Random(7000003 * seed + 55)
+    quick = tier == "quick"
+    out = []
+    n = 16 if quick else 250
+    lmax = 3 if quick else 5
+    for i in range(n):
+        bname = ("general", "direct")[i % 2]
+        omax = 4 if bname == "general" else 2
+        o = [rng.randint(0, omax) for _ in range(3)]
+        if i % 5 == 0:
+            o[rng.randrange(3)] = 0
+        s = gen_shell(rng, l=(i // 2) % (lmax + 1), kmax=2 if quick else 3, mmax=2, sph=False)
+        pts = gen_points(rng, [s], rng.randint(3, 4))
+        if i % 4 == 3:
+            pts = full_mantissa(rng, [s], pts)
+        c = {"kind": "deriv", "hp": 1, "basis": [s.to_json()], "points": pts, "orders": o, "backend": bname,
+             "transform": None}
+        if i >= n - 2:      # the last two: a tight shell far from the origin (see far_tight_case)
+            c = dict(far_tight_case(rng, i % 2, bname, o), hp=1)
+        out.append(c)
+    return out
+
+
+def eval_case(model, case):
+    if case.get("hp"):
+        return eval_hp(model, case)
     from gbasis.evals.eval import evaluate_basis
     from gbasis.evals.eval_deriv import evaluate_deriv_basis
 
@@ -140,13 +196,6 @@ def _eval_case(model, case):
     scale = _scales(model, bsx, pts, orders, T)
     d = _cmp(impl, res, scale)
     return {"detail": d, "tag": tag, "nontrivial": bool((rich or total > 0) and _nonzero(res))}
-
-
-def eval_case(model, case):
-    out = _eval_case(model, case)
-    if case.get("stream") and out.get("tag"):
-        out["tag"] = "%s: %s" % (case["stream"], out["tag"])
-    return out
 
 
 def _nonzero(nested):
@@ -273,61 +322,22 @@ def full_mantissa(rng, basis, pts):
     return out
 
 
-def gen_far_tight(rng, n):
-    """Tight shells on a centre far from the coordinate origin ("any set of points", "any basis"): the values are
-    translation invariant, a formula that goes through absolute coordinates (|r|^2 - 2 r.R + |R|^2 for |r - R|^2)
-    loses alpha |R|^2 2^-53 ~ 1e-6 relative here, while (x - X) formed first is exact.  Short dyadic numbers near the
-    origin cannot show this (seeded change C05-mutc was missed by every other stream)."""
-    cases = []
-    g_triples = list(itertools.product(range(5), repeat=3))
-    d_triples = list(itertools.product(range(3), repeat=3))
-    rng.shuffle(g_triples)
-    rng.shuffle(d_triples)
-    for i in range(n):
-        centre = [Fraction(rng.choice([-1, 1]) * rng.uniform(100.0, 150.0)) for _ in range(3)]
-        nsh = 1 if i % 3 else 2
-        basis = []
-        for j in range(nsh):
-            l = (0, 0, 1, 1, 2)[(i + 2 * j) % 5]
-            cap = lib.exp_cap(l)
-            sh = gen_shell(rng, l=l, kmax=2, mmax=2, sph=(l == 2 and i % 2 == 1), coord=list(centre))
-            exps = []
-            while len(exps) < len(sh.exps):
-                e = Fraction(math.exp(rng.uniform(math.log(cap / 4.0), math.log(cap))))
-                if e not in exps:
-                    exps.append(e)
-            sh.exps = exps
-            basis.append(sh)
-        amax = float(max(e for s in basis for e in s.exps))
-        w = 1.0 / math.sqrt(amax)
-
-        def off():
-            return rng.choice([-1, 1]) * rng.uniform(0.2, 3.0) * w
-
-        cf = [float(c) for c in centre]
-        pts = [list(cf)]
-        ax = rng.randrange(3)
-        p = list(cf)
-        p[ax] = cf[ax] + off()
-        pts.append(p)                                           # on an axis through the centre
-        ax = rng.randrange(3)
-        p = [cf[k] + off() for k in range(3)]
-        p[ax] = cf[ax]
-        pts.append(p)                                           # on a coordinate plane through the centre
-        for _ in range(rng.randint(2, 4)):
-            pts.append([cf[k] + off() for k in range(3)])
-        pts = [[str(Fraction(x)) for x in p] for p in pts]
-        bj = [s.to_json() for s in basis]
-        mode = i % 15
-        if mode == 14:
-            cases.append({"kind": "basis", "stream": "far_tight", "basis": bj, "points": pts, "transform": None})
-        elif i % 2 == 0:
-            cases.append({"kind": "deriv", "stream": "far_tight", "basis": bj, "points": pts,
-                          "orders": list(g_triples[(i // 2) % 125]), "backend": "general", "transform": None})
-        else:
-            cases.append({"kind": "deriv", "stream": "far_tight", "basis": bj, "points": pts,
-                          "orders": list(d_triples[(i // 2) % 27]), "backend": "direct", "transform": None})
-    return cases
+def far_tight_case(rng, l, bname, orders, kmax=2):
+    """One tight shell (exponents within a factor 4 of the cap of published sets for that l) centred 30-150 bohr
+    (per axis) from the coordinate origin, full-mantissa coordinates; points on the centre and within 2/sqrt(alpha)
+    of it.  Translation-invariant formulas are insensitive to this; a Gaussian factor computed through absolute
+    coordinates (|r|^2 - 2 r.R + |R|^2) loses 6-9 digits here in double precision (and none in the hp replay)."""
+    import math
+    cap = float(lib.exp_cap(l))
+    s = gen_shell(rng, l=l, kmax=kmax, mmax=2, sph=False)
+    s.exps = [Fraction(math.exp(rng.uniform(math.log(cap / 4), math.log(cap)))) for _ in s.exps]
+    s.coord = [Fraction(rng.choice([-1, 1]) * rng.uniform(30, 150)) for _ in range(3)]
+    w = 2.0 / float(min(s.exps)) ** 0.5
+    pts = [[str(c) for c in s.coord]]
+    for _ in range(3):
+        pts.append([str(Fraction(float(c) + rng.uniform(-w, w))) for c in s.coord])
+    return {"kind": "deriv", "basis": [s.to_json()], "points": pts, "orders": list(orders), "backend": bname,
+            "transform": None}
 
 
 def gen_cases(tier, seed):
@@ -386,13 +396,16 @@ def gen_cases(tier, seed):
                       "points": gen_points(rng, basis, 50 if i % 2 == 0 else rng.randint(20, 50)),
                       "orders": o, "backend": "general" if i % 4 != 2 else "direct",
                       "transform": gen_transform(rng, basis) if i % 2 else None})
+    # tight shells far from the origin (both back-ends, values and low derivatives)
+    for i in range(8 if quick else 80):
+        bname = ("general", "direct")[i % 2]
+        o = [0, 0, 0] if i % 4 < 2 else [rng.randint(0, 2) for _ in range(3)]
+        cases.append(far_tight_case(rng, rng.choice([0, 0, 1, 2]), bname, o))
     # unknown back-end names
     for name in ("Direct", "analytic"):
         basis = gen_basis(rng, 1, 1, kmax=2, mmax=1, lmax_rest=1, types="c")
         cases.append({"kind": "deriv", "basis": [s.to_json() for s in basis], "points": gen_points(rng, basis, 3),
                       "orders": [1, 0, 0], "backend": name, "transform": None})
-    # tight shells on a centre 100-150 bohr from the coordinate origin (own PRNG: the other streams keep their cases)
-    cases += gen_far_tight(random.Random(7000003 * seed + 55), 30 if quick else 300)
     return cases
 
 
@@ -443,7 +456,7 @@ def run(rep, tier, seed, model, replay):
     if replay is not None:
         cases = [replay["case"]]
     else:
-        cases = gen_cases(tier, seed)
+        cases = gen_hp_cases(tier, seed) + gen_cases(tier, seed)
         if model is not None:
             check_norm_shortcut(model, seed)
             EXTRA["in_coq_crosscheck_cases"] = coq_crosscheck(model, seed)
